@@ -135,7 +135,11 @@ func (ex *Exec) load(obj *Obj, off int, t types.Type) Value {
 		if obj.Sym != nil {
 			return AggV{Typ: t, Sym: obj.Sym}
 		}
-		return AggV{Typ: t, Cells: append([]Value{}, obj.Cells[off:off+n]...)}
+		cells := append([]Value{}, obj.Cells[off:off+n]...)
+		for i, c := range cells {
+			cells[i] = ex.resolve(c)
+		}
+		return AggV{Typ: t, Cells: cells}
 	}
 	if off >= len(obj.Cells) {
 		ex.unsupported("load out of object bounds (%s off %d)", obj.Name, off)
